@@ -869,7 +869,8 @@ def r3_helpers(ctx, repo):
         else:
             ctx.ok("R3", key, "no result is served from a per-instance store", ctx.loc(fcls.module, fcls.methods[m]))
     borrow(ctx, "C01", "check_window_class", ("SlidingWindowSplitter",), "R3", "update_predict:default-splitter-contract",
-           lambda r: r["construct"].startswith("SlidingWindowSplitter"), "the SlidingWindowSplitter contract the moving-cutoff replay relies on "
+           lambda r: r["construct"].startswith("SlidingWindowSplitter") and r["rule"] != "R4",  # get_cutoffs / get_n_splits are not used by the replay
+           "the SlidingWindowSplitter contract the moving-cutoff replay relies on "
            "(every feasible window is produced, train/test positions as specified)", roots=("sktime/forecasting/model_selection/_split.py",))
     # with update_params=False the fitted model is reused at a later cutoff: fit-time and predict-time time axes must agree
     borrow(ctx, "C11", "rule_time_axis", (), "R2", "update-without-refit:time-axis",
